@@ -125,7 +125,7 @@ Lemma parse_program_agrees fs root pfs :
   /\ (parse_program fs root = FPanic <-> cparse_program pfs root = PPanic)
   /\ (parse_program fs root = FFuel <-> cparse_program pfs root = CompilerValidate.PFuel).
 Proof.
-  intro E. unfold parse_program. rewrite E.
+  intro E. unfold parse_program, parse_program_diag. rewrite E.
   destruct (cparse_program pfs root) as [t0|m| |]; cbn [fres_of]; repeat split; intros; try congruence;
     try discriminate; try (match goal with H : exists _, _ |- _ => destruct H; discriminate end); eauto.
 Qed.
@@ -150,7 +150,7 @@ Proof.
   intros Hd Hn. destruct (parsed_fs_some fs Hd) as [pfs E].
   pose proof (parsed_fs_names_ok fs pfs E Hn) as Hok.
   destruct (cparse_total_res pfs root Hok) as [G W].
-  unfold parse_program. rewrite E. split.
+  unfold parse_program, parse_program_diag. rewrite E. split.
   - destruct (cparse_program pfs root) as [t0|m| |]; cbn [fres_of pres_res graceful] in *; eauto; contradiction.
   - intros t Ht. apply W. destruct (cparse_program pfs root); cbn [fres_of] in Ht; congruence.
 Qed.
